@@ -59,3 +59,21 @@ contract(A, props=['C12'],
          ensures=[f'implies({SL}, result == {XV} % 2**self._value_size)',
                   f'implies(not {SL}, result == {XV})'],
          modifies=[], **GV)
+
+# ---- the configured min / max of a numeric-bytecode operand reach the part that enforces them -----------------------------
+PV = P + 'ExpressionByteCodePartWithValidation.__init__'
+contract(PV, props=['C12'], may_raise={'SystemExit': 'True', 'SyntaxError': 'True'},
+         ensures=['self._max == max_value', 'self._min == min_value', 'self._value_size == value_size',
+                  'self._byte_align == byte_align', 'self._endian == endian'],
+         modifies=[], allocates=True, no_frame_check=True)
+NBO = 'bespokeasm.assembler.model.operand.types.numeric_bytecode:NumericBytecode.parse_operand'
+contract(NBO, props=['C12', 'C01'], returns='ParsedOperand?',
+         requires=['"bytecode" in self._config'],
+         may_raise={'SystemExit': 'True', 'SyntaxError': 'True', 'KeyError': 'True'},
+         ensures=['implies(result is not None, result._argument is None and result._bytecode is not None'
+                  ' and isa(value_of(result._bytecode), "ExpressionByteCodePartWithValidation"))',
+                  'implies(result is not None, value_of(result._bytecode)._max == some(cfg_int(self._config["bytecode"]["max"]))'
+                  ' and value_of(result._bytecode)._min == some(cfg_int(self._config["bytecode"]["min"])))',
+                  'implies(result is not None, value_of(result._bytecode)._value_size == cfg_int(self._config["bytecode"]["size"])'
+                  ' and not value_of(result._bytecode)._byte_align)'],
+         modifies=[], allocates=True, no_frame_check=True)
